@@ -52,7 +52,8 @@ def nw_cases(draw):
         spec["alpha"] = draw(st.sampled_from([0.05, 1.0, 20.0]))
         spec["sigma"] = draw(st.sampled_from([1.0, 10.0, 50.0]))
         spec["zero_where"] = draw(st.sampled_from(["leading", "trailing", "interior", "random"]))
-    spec["delta_kind"] = draw(st.sampled_from(["0", "+ulp", "-ulp", "+band", "-band"]))
+    spec["delta_kind"] = draw(st.sampled_from(["0", "+ulp", "-ulp", "+band", "-band", "0", "+band", "-band", "scaled"]))
+    spec["scale"] = draw(st.sampled_from([0.5, 3.0, 1e-3, 7.0, 0.999, 1.001]))
     spec["delta_frac"] = draw(st.floats(0.0, 0.99))
     return spec
 
@@ -101,12 +102,18 @@ def build_w(spec):
         w = w * (1 + spec["delta_frac"] * SQRTEPS)
     elif dk == "-band":
         w = w * (1 - spec["delta_frac"] * SQRTEPS)
+    elif dk == "scaled":
+        w = w * float(spec.get("scale", 1.0))  # far outside the band: the routine renormalises (or may reject) - see execute_nw
     return w
+
+
+_RAW = {}
 
 
 def call_syst(n, w, u0):
     from tempest.tools import systematic_resample
 
+    w = _RAW.get(id(w), w)  # execute_nw registers the raw (unnormalised) vector to hand to the routine
     with scripted_uniform(u0) as calls:
         idx = systematic_resample(n, w.copy())
     need_calls(calls, "systematic_resample")
@@ -117,12 +124,24 @@ def execute_nw(case):
     n = int(case["n"])
     w = build_w(case)
     m = len(w)
-    if abs(float(np.sum(w)) - 1.0) > SQRTEPS:
-        return {"nontrivial": False, "classes": ["outside-band-skipped"]}
+    outside = abs(float(np.sum(w)) - 1.0) > SQRTEPS
+    w_in = w
+    if outside:
+        # outside the band the property's quantifier ends; the routine's documented behaviour is to renormalise. Either a clean
+        # rejection (exception) or a sample that obeys the laws for w/sum(w) is accepted - a silently different distribution is not.
+        try:
+            call_syst(n, w_in, 0.5)
+        except HarnessError:
+            raise
+        except Exception:  # noqa
+            return {"nontrivial": False, "classes": ["outside-band-rejected"]}
+        w = w / np.sum(w)
+        _RAW.clear()
+        _RAW[id(w)] = w_in
     W = [Fraction(float(x)) for x in w]
     S = sum(W)
     delta = float(S - 1)
-    tau = n * abs(delta) + 1e-9
+    tau = n * abs(delta) + (1e-9 if not outside else 1e-7 * n)
     nw = np.array([float(n * x) for x in W])
     # exact breakpoints of the comb: u0 = c_j*n - i  in [0,1)
     bps = {Fraction(0)}
@@ -197,6 +216,7 @@ def execute_nw(case):
         raise Violation(
             f"E[copies of index {k}] = {expc[k]!r} but n*w = {nw[k]!r} (|diff|={err[k]:.3g} > tau={tau:.3g})",
             sig={"kind": "biased"}, detail=detail)
+    _RAW.clear()
     npos = int(np.sum(w > 0))
     classes = [f"delta:{case['delta_kind']}", f"kind:{case['kind']}"]
     if w[-1] == 0:
